@@ -194,6 +194,7 @@ func c06Builtin(x *core.Ctx, c *core.Case) {
 	}
 	wantDefs := 0
 	allOK := true
+	var wantOrder []string
 	for _, s := range srcs {
 		sd, err := parser.ParseSchema(s)
 		if err != nil {
@@ -201,6 +202,9 @@ func c06Builtin(x *core.Ctx, c *core.Case) {
 			continue
 		}
 		wantDefs += len(sd.Definitions) + len(sd.Extensions)
+		for _, d := range sd.Definitions {
+			wantOrder = append(wantOrder, d.Name)
+		}
 		for _, d := range sd.Definitions {
 			if d.Position.Src != s {
 				x.Violate("builtin-flag(definition):foreign-source:ParseSchema", d.Name+" is not positioned in the source that was parsed", "positions point into the parsed source")
@@ -222,6 +226,14 @@ func c06Builtin(x *core.Ctx, c *core.Case) {
 		x.Violate("builtin-flag:merged-count", fmt.Sprintf("%d definitions+extensions after merging", got), fmt.Sprintf("%d", wantDefs))
 	}
 	check("ParseSchemas", sd, nil)
+	// source order: the merged document lists the definitions of the first source, then those of the second, ...
+	var gotOrder []string
+	for _, d := range sd.Definitions {
+		gotOrder = append(gotOrder, d.Name)
+	}
+	if strings.Join(gotOrder, ",") != strings.Join(wantOrder, ",") {
+		x.Violate("builtin-flag:merged-order", strings.Join(gotOrder, ","), strings.Join(wantOrder, ","))
+	}
 	sd2, err := parser.ParseSchemasWithLimit(0, srcs...)
 	if err == nil {
 		check("ParseSchemasWithLimit", sd2, nil)
